@@ -34,7 +34,25 @@ func MutateTOML(r Rnd, text string, n int) (string, []string) {
 	var log []string
 	for i := 0; i < n && len(lines) > 0; i++ {
 		li := r.Intn(len(lines))
-		switch r.Intn(10) {
+		switch r.Intn(11) {
+		case 10:
+			// a number of a size nobody means: a slip of the finger on a numeric default
+			var cand []int
+			for lj, l := range lines {
+				if m := kvRe.FindStringSubmatch(l); m != nil {
+					switch strings.TrimSpace(m[2]) {
+					case "octave", "semitone", "channel", "velocity":
+						cand = append(cand, lj)
+					}
+				}
+			}
+			if len(cand) > 0 {
+				lj := cand[r.Intn(len(cand))]
+				m := kvRe.FindStringSubmatch(lines[lj])
+				nv := []string{"9223372036854775807", "-9223372036854775808", "1000000000000", "-4294967296", "2147483648", "65536", "-129", "128"}[r.Intn(8)]
+				log = append(log, fmt.Sprintf("line %d: %s = %s -> %s", lj, strings.TrimSpace(m[2]), m[3], nv))
+				lines[lj] = m[1] + m[2] + " = " + nv
+			}
 		case 0:
 			log = append(log, fmt.Sprintf("delete line %d %q", li, lines[li]))
 			lines = append(lines[:li], lines[li+1:]...)
